@@ -422,11 +422,15 @@ def make_tri_group(spec):
     TB = T[bi].reshape(-1, 3, 3)
     PB = P[bi].reshape(-1, 3)
     bscale = 1.0
+    has_deg = any(kinds[i] == "deg" for i in bi)
     for t, p, s in zip(TB, PB, [sizes[i] for i in bi]):
         bscale = max(bscale, (gens.maxabs(p - t[0]) / s) if s > 0 else 1.0)
     add("bary", Line("tri.bary").vecs(TB).vecs(PB),
-        lambda: counted(barycentric_coordinates_of_points(shcopy(TB), shcopy(PB))), "both", bscale * 10,
-        sub="guard" if any(kinds[i] == "deg" for i in bi) else None, triv=len(bi) == 0)
+        # (the zero-area guard writes `np.spacing(1)` into the squared areas, which only a float array can hold: integer
+        # degenerate triangles give NaN where float ones give (1, 0, 0) -- outside the property, which excludes degenerate
+        # triangles here, so those stay float in the integer-dtype runs)
+        lambda: counted(barycentric_coordinates_of_points(shcopy(TB, keep_dtype=has_deg), shcopy(PB, keep_dtype=has_deg))),
+        "both", bscale * 10, sub="guard" if has_deg else None, triv=len(bi) == 0)
     # containment and same-side: exact on the lattice; float stream only where every weight is away from 0
     if stream == "lattice":
         ci = list(range(k))
@@ -483,7 +487,7 @@ def build_rng(rs):
 
             def random(self, size=None):
                 n = int(np.prod(size)) if size is not None else 1
-                out = np.array(self.seq[:n], dtype=np.float64)
+                out = np.copy(np.array(self.seq[:n], dtype=np.float64))   # handed to the library, which owns it: private and writable
                 if len(out) < n:
                     raise RuntimeError("scripted generator exhausted")
                 self.seq = self.seq[n:]
